@@ -434,3 +434,38 @@ impl ActorRx {
         }
     }
 }
+
+// ---------------------------------------------------------------- snapshot (H5)
+
+/// Internal table sizes and counters of a node.
+#[derive(Debug, Clone)]
+pub struct Snapshot {
+    pub id: Id,
+    pub iterative_queries: Vec<Id>,
+    pub put_queries: Vec<Id>,
+    pub put_senders: Vec<(Id, usize)>,
+    pub get_senders: Vec<(Id, usize)>,
+    pub inflight_raw: usize,
+    pub inflight_live: usize,
+    pub inflight_capacity: usize,
+    pub request_timeout_ns: u64,
+    pub cache_len: usize,
+    /// Per cached lookup, most recently used first: (target, (kind, estimate, responders estimate, subnets, nodes))
+    pub cache_kinds: Vec<(Id, (u8, f64, f64, u8, usize))>,
+    pub stats: (usize, f64, usize, f64, usize),
+    pub signed_stats: (usize, f64, usize, f64, usize),
+    pub store_sizes: (usize, usize, usize, usize, usize, usize),
+    pub server_mode: bool,
+    pub socket_server_mode: bool,
+    pub firewalled: bool,
+    pub public_address: Option<SocketAddrV4>,
+    pub routing_table: Vec<(Id, SocketAddrV4, u64)>,
+    pub signed_peers_routing_table: Vec<(Id, SocketAddrV4, u64)>,
+}
+
+/// Ask a running actor thread for its snapshot through a `Dht` handle.
+pub fn snapshot_via(dht: &crate::dht::Dht) -> flume::Receiver<Snapshot> {
+    let (tx, rx) = flume::bounded(1);
+    dht.send(ActorMessage::Verif(tx));
+    rx
+}
